@@ -149,6 +149,20 @@ def expand_alternatives(rx):
     return sorted(set(out), key=lambda s: (len(s), s))
 
 
+def const_int(node):
+    """an integer literal or a constant expression over + - * ** of integer literals"""
+    if isinstance(node, ast.Constant) and isinstance(node.value, int) and not isinstance(node.value, bool):
+        return node.value
+    if isinstance(node, ast.BinOp) and isinstance(node.op, (ast.Add, ast.Sub, ast.Mult, ast.Pow)):
+        a, b = const_int(node.left), const_int(node.right)
+        if isinstance(node.op, ast.Pow):
+            if not 0 <= b <= 64:
+                raise Unsupported("exponent " + str(b))
+            return a ** b
+        return a + b if isinstance(node.op, ast.Add) else a - b if isinstance(node.op, ast.Sub) else a * b
+    raise Unsupported("expected an integer constant: " + ast.unparse(node)[:60])
+
+
 def const_str(node):
     if isinstance(node, ast.Constant) and isinstance(node.value, str):
         return node.value
@@ -231,8 +245,8 @@ def generate():
 
         # ---- Rotation.rotation_size
         rs = find_func(fs, "rotation_size", "Rotation")
-        if [a.arg for a in rs.args.args] != ["message", "file", "size_limit"] or len(rs.body) != 2 \
-                or ast.unparse(rs.body[0]) != "file.seek(0, 2)" or not isinstance(rs.body[1], ast.Return):
+        if [a.arg for a in rs.args.args] != ["message", "file", "size_limit"] or len(rs.body) < 2 \
+                or ast.unparse(rs.body[0]) != "file.seek(0, 2)" or not isinstance(rs.body[-1], ast.Return):
             raise Unsupported("rotation_size shape")
 
         def call_tell(tr, node):
@@ -248,7 +262,13 @@ def generate():
                 return ("msgChars", "int")
             raise Unsupported("len of " + arg)
 
-        term, typ = Tr({"size_limit": ("sizeLimit", "int")}, {"file.tell": call_tell, "len": call_len}).tr(rs.body[1].value)
+        rs_env = {"size_limit": ("sizeLimit", "int")}
+        rs_calls = {"file.tell": call_tell, "len": call_len}
+        for st in rs.body[1:-1]:      # plain local assignments are inlined
+            if not (isinstance(st, ast.Assign) and len(st.targets) == 1 and isinstance(st.targets[0], ast.Name)):
+                raise Unsupported("rotation_size statement " + ast.unparse(st)[:60])
+            rs_env[st.targets[0].id] = Tr(rs_env, rs_calls).tr(st.value)
+        term, typ = Tr(rs_env, rs_calls).tr(rs.body[-1].value)
         Tr.need(typ, "bool")
         body += "/-- `Rotation.rotation_size` after `file.seek(0, 2)`: tell = size of the file in bytes -/\n"
         body += "def rotationSize (tell msgBytes msgChars sizeLimit : Int) : Bool := %s\n\n" % term
@@ -358,8 +378,9 @@ def generate():
                 and ast.unparse(u.test) == "u"):
             raise Unsupported("parse_size unit exponent")
         letters = const_str(ub.left.func.value)
-        if not (ast.unparse(i.test) == "i" and isinstance(i.body, ast.Constant) and isinstance(i.orelse, ast.Constant)):
+        if ast.unparse(i.test) != "i":
             raise Unsupported("parse_size base")
+        base_bin, base_dec = const_int(i.body), const_int(i.orelse)
         if not (ast.unparse(b.test) == "b" and isinstance(b.body, ast.Subscript) and isinstance(b.body.value, ast.Dict)
                 and ast.unparse(b.body.slice) == "b" and ast.unparse(b.orelse) == "1"):
             raise Unsupported("parse_size bit divisor")
@@ -368,7 +389,7 @@ def generate():
             raise Unsupported("parse_size arithmetic changed")
         body += "def sizeUnitLetters : Py.Str := %s\n" % lean_chars(letters)
         body += "def sizeUnitOffset : Int := %d\n" % ub.right.value
-        body += "def sizeBinaryBase : Int := %d\ndef sizeDecimalBase : Int := %d\n" % (i.body.value, i.orelse.value)
+        body += "def sizeBinaryBase : Int := %d\ndef sizeDecimalBase : Int := %d\n" % (base_bin, base_dec)
         body += "def sizeBitDivisor : List (Char × Int) := [%s]\n\n" % ", ".join("('%s', %d)" % (k, v) for k, v in bits)
 
         # ---- parse_duration
